@@ -362,6 +362,7 @@ static void do_build(void)
   need_B();
   dump_full("A", A); dump_full("B", B);
   dump_state("A", A); dump_state("B", B);
+  printf("dobuild\n");
   fflush(stdout);
   rc = hwloc_topology_diff_build(A, B, 0, &diff);
   printf("build %d %u\n", rc, diff_len(diff)); print_diff(diff); fflush(stdout);
